@@ -151,14 +151,20 @@ def esc(s):
     return "".join(out)
 
 
-def run_harness(cases, tag="batch"):
+def run_harness(cases, tag="batch", timeout=3000):
     """cases: list of dicts (see harness/src/main.rs). Returns list of result dicts."""
     inp = os.path.join(CACHE, "cases-%s-%d.jsonl" % (tag, os.getpid()))
     outp = os.path.join(CACHE, "impl-%s-%d.jsonl" % (tag, os.getpid()))
     with open(inp, "w") as f:
         for c in cases:
             f.write(json.dumps(c) + "\n")
-    rc, out = sh([HARNESS_BIN, inp, outp], check=False, timeout=3000)
+    try:
+        rc, out = sh([HARNESS_BIN, inp, outp], check=False, timeout=timeout)
+    except subprocess.TimeoutExpired:
+        for f in (inp, outp):
+            if os.path.exists(f):
+                os.remove(f)
+        raise
     if rc != 0:
         raise BuildError("harness-run", out[-2000:])
     res = [json.loads(l) for l in open(outp)]
